@@ -350,9 +350,55 @@ theorem trimRightSp_spec (s : List Nat) :
 
 /-! ### TrimDBCS -/
 
-theorem trimDBCS_spec' (s L : List Nat) (b : Nat) (h : cstr s = L ++ [b]) :
-    trimDBCS s = .ok (if b ≥ 128 then (L, s.set L.length 0) else (L ++ [b], s)) := by
+/-- the walk's flag is "the scan is on a lead byte". -/
+theorem leadWalk_fold (b : List Nat) (isLead : Bool) (st : Nat) (h : isLead = true ↔ st = DBCS_LEADING) :
+    leadWalk b isLead = true ↔ b.foldl (fun st c => dbcsNextStatus c st) st = DBCS_LEADING := by
+  obtain ⟨k0, k1, k2⟩ := dbcs_consts
+  induction b generalizing isLead st with
+  | nil => simpa [leadWalk] using h
+  | cons c r ih =>
+    simp only [leadWalk, List.foldl_cons]
+    apply ih
+    unfold dbcsNextStatus
+    by_cases hl : isLead = true
+    · have hst : st = DBCS_LEADING := h.mp hl
+      simp [hl, hst, k1, k2]
+    · have hst : st ≠ DBCS_LEADING := fun e => hl (h.mpr e)
+      have hf : isLead = false := by simpa using hl
+      simp only [hf, Bool.false_eq_true, if_false, hst]
+      by_cases hc : c ≥ 128
+      · simp [hc]
+      · simp [hc, k0, k1]
+
+theorem leadWalk_iff (b : List Nat) : leadWalk b false = true ↔ dbcsFold b = DBCS_LEADING :=
+  leadWalk_fold b false DBCS_ASCII (by have := dbcs_consts; simp; omega)
+
+theorem trimDBCS_keep (s : List Nat) (h : dbcsFold (cstr s) ≠ DBCS_LEADING) : trimDBCS s = .ok (cstr s, s) := by
   unfold trimDBCS
+  rw [cstrToBytes_eq']
+  have : leadWalk (cstr s) false = false := by
+    cases hw : leadWalk (cstr s) false with
+    | false => rfl
+    | true => exact absurd ((leadWalk_iff _).mp hw) h
+  simp [bind, Except.bind, this, pure, Except.pure]
+
+theorem trimDBCS_cut (s L : List Nat) (b : Nat) (hc : cstr s = L ++ [b]) (h : dbcsFold (cstr s) = DBCS_LEADING) :
+    trimDBCS s = .ok (L, s.set L.length 0) := by
+  unfold trimDBCS
+  rw [cstrToBytes_eq']
+  have hw : leadWalk (L ++ [b]) false = true := by rw [← hc]; exact (leadWalk_iff _).mpr h
+  have hlen : L.length < s.length := by
+    have := cstr_length_le s
+    rw [hc] at this; simp at this; omega
+  simp only [bind, Except.bind, hc, hw, if_true, slice_snoc]
+  have e : (L ++ [b]).length - 1 = L.length := by simp
+  have hne : ¬ (L ++ [b]).length = 0 := by simp
+  simp only [hne, if_false, e, setAt, hlen, if_true]
+  rfl
+
+theorem trimDBCSOld_spec' (s L : List Nat) (b : Nat) (h : cstr s = L ++ [b]) :
+    trimDBCSOld s = .ok (if b ≥ 128 then (L, s.set L.length 0) else (L ++ [b], s)) := by
+  unfold trimDBCSOld
   rw [cstrToBytes_eq', h]
   have hlen : L.length < s.length := by
     have := cstr_length_le s
@@ -364,13 +410,5 @@ theorem trimDBCS_spec' (s L : List Nat) (b : Nat) (h : cstr s = L ++ [b]) :
     rw [e]
     simp [setAt, hlen, pure, Except.pure]
   · simp only [hb, if_false]; rfl
-
-theorem trimDBCS_empty' (s : List Nat) (h : cstr s = []) : trimDBCS s = .error .panic := by
-  unfold trimDBCS
-  rw [cstrToBytes_eq', h]
-  rfl
-
-theorem setAt_ok (a : List Nat) (i v : Nat) (h : i < a.length) : setAt a i v = .ok (a.set i v) := by
-  simp [setAt, h]
 
 end PttVerif.C18
